@@ -561,6 +561,8 @@ class Fixed(Family):
                        'fault:lexical'))
         out.append(Doc('fx-bad-list', self._doc([{'kids': [('l', '1 2 x!')]}]), 'fault:lexical'))
         out.append(Doc('fx-bad-prefix', self._doc([{'kids': [('q', 'nope:name')]}]), 'fault:lexical', True))
+        for d in out:
+            d.prefix_dep = True   # fixed/default QName attributes are applied to every <e>
         return out
 
 
@@ -819,7 +821,10 @@ class Recur(Family):
     def nested(depth, width=1):
         """depth nested <n> elements (root counts as 1); `width` extra leaf children per level."""
         side = '<n/>' * (width - 1)
-        return (_decl() + '<n>' * depth + (side + '</n>') * depth).encode()
+        if depth < 2:
+            return (_decl() + '<n/>').encode()
+        # side leaves live in elements of level <= depth-1, so they sit at level <= depth
+        return (_decl() + '<n>' * (depth - 1) + '<n/>' + (side + '</n>') * (depth - 1)).encode()
 
     @staticmethod
     def wide(count):
